@@ -19,5 +19,5 @@ while read prop commit key; do
   VERIF_REPO=$wt ./check $prop --tier quick --seed 1 > work/fixrevert/$key.log 2>&1; rc=$?
   echo "$prop $key $commit reverted -> check rc=$rc"
   git -C /repo worktree remove --force $wt
-  rm -rf /verif/work/alt-*
+  for d in /verif/work/alt-*; do [ -f $d/repo_path ] && grep -q "^$wt\$" $d/repo_path && rm -rf $d; done
 done < work/fixlist.txt
